@@ -2745,7 +2745,7 @@ func lineCompleteThroughHelper(c *Ctx, fn *ssa.Function, b *ssa.BasicBlock, si i
 				}
 				// (b) k+1 < len(buffer parameter)
 				if bufParam >= 0 && bufParam < len(g.Params) {
-					if m, isLA := strictlyBelowLen(iff, gi, func(v ssa.Value) bool {
+					if m, isLA := strictlyBelowLen(gif, gi, func(v ssa.Value) bool {
 						cl, isLen := isBuiltinCall(v, "len")
 						return isLen && cl.Call.Args[0] == ssa.Value(g.Params[bufParam])
 					}); isLA && m >= 1 {
